@@ -248,6 +248,13 @@ pub fn run(cx: &mut Cx) {
             cx.ev.require(&format!("cell/{}/{}", op.text(), d));
         }
     }
+    cx.ev.require("workload/length-sweep");
+    cx.ev.require("range/at-its-ends/true");
+    cx.ev.require("range/at-its-ends/false");
+    cx.ev.require("range/near-ended");
+    if matches!(cx.tier, crate::fw::Tier::Quick | crate::fw::Tier::Thorough) {
+        cx.ev.require("workload/hash-collisions");
+    }
     let star = Pattern::new("p-*").expect("harness: p-* must compile");
     let mut cache: Option<Compiled> = None;
 
